@@ -77,7 +77,8 @@ def encOutcome (o : Outcome Nat) : T :=
 /-- does the received value agree with what the specification demands? (canonical encodings) -/
 def agrees (exp recv : Val Nat) : Bool := encV exp == encV recv
 
-def cfgCur : Cfg := {}
+def cfgCurOf (tb : Tables) : Cfg :=
+  { nullVarUsesDefault := tb.nullVarUsesDefault, listNotCoerced := tb.listNotCoerced, symbolUnchecked := tb.symbolUnchecked }
 
 structure Case where
   ins : List (InputDef Nat)
@@ -111,6 +112,7 @@ def handle (tb : Tables) (c impl : T) : String :=
   | none => "bad-op"
   | some ⟨ins, vds, sup, decl, given, hs⟩ =>
     let ext := nativeExt hs
+    let cfgCur := cfgCurOf tb
     let run := fun (cfg : Cfg) (tin : Scalar → Table) => encOutcome (formArgs cfg ext tin ins vds sup decl given)
     let cur := run cfgCur (inTbl tb)
     -- specification
@@ -157,6 +159,6 @@ def handle (tb : Tables) (c impl : T) : String :=
 def flags (tb : Tables) : List (String × Bool) :=
   [("D08", !(unsoundIn .int (inTbl tb .int)).isEmpty),
    ("D46", !(unsoundIn .float (inTbl tb .float)).isEmpty),
-   ("D09", cfgCur.listNotCoerced), ("D10", cfgCur.symbolUnchecked), ("D41", cfgCur.nullVarUsesDefault)]
+   ("D09", (cfgCurOf tb).listNotCoerced), ("D10", (cfgCurOf tb).symbolUnchecked), ("D41", (cfgCurOf tb).nullVarUsesDefault)]
 
 end Ggql.Driver.C04
